@@ -166,6 +166,8 @@ class Vec:
     """one abstract scalar per row class.  `fresh`: a Series built by pd.Series(<array>) without index= (RangeIndex 0..n-1):
     storing it into a column of a table whose index is not 0..n-1 aligns by label, i.e. onto the wrong rows."""
 
+    exact = False                     # True: literally these elements (len() is a number, not an abstract row count)
+
     def __init__(self, vals, fresh=False, aligned=False):
         self.v = list(vals)
         self.fresh = fresh
@@ -175,6 +177,7 @@ class Vec:
         """the ndarray behind a Series (`.values`): same storage, no index"""
         x = Vec(())
         x.v = self.v
+        x.exact = self.exact
         return x
 
     def __repr__(self):
@@ -225,6 +228,19 @@ class DF:
     def __init__(self, cols, n, index="range", pop=None):
         self.cols, self.n, self.index = dict(cols), n, index
         self.pop = pop if pop is not None else object()      # identity of the row population (for len() comparisons)
+
+    @property
+    def exact(self):
+        return self.__dict__.get("_exact", False)
+
+    @exact.setter
+    def exact(self, flag):
+        """exact: the table stands for literally these rows; its columns then have a literal length as well"""
+        self.__dict__["_exact"] = bool(flag)
+        if flag:
+            for v in self.cols.values():
+                if isinstance(v, Vec):
+                    v.exact = True
 
     def copy(self):
         d = DF({k: Vec(v.v, aligned=True) if isinstance(v, Vec) else v for k, v in self.cols.items()}, self.n, self.index, self.pop)
